@@ -1,10 +1,12 @@
 use vkit::engine::{drive_main, Args};
 
+pub mod c01;
 pub mod c04;
 pub mod c08;
 pub mod c09;
 pub mod c10;
 pub mod c11;
+pub mod c12;
 pub mod c16;
 pub mod c21;
 pub mod dbg;
@@ -17,11 +19,13 @@ pub const STACK_SIZE: usize = 8 * 1024 * 1024;
 
 pub fn dispatch(id: &str, args: &Args) -> i32 {
     match id {
+        "C01" => drive_main(&c01::C01, args),
         "C04" => drive_main(&c04::C04, args),
         "C08" => drive_main(&c08::C08, args),
         "C09" => drive_main(&c09::C09, args),
         "C10" => drive_main(&c10::C10, args),
         "C11" => drive_main(&c11::C11, args),
+        "C12" => drive_main(&c12::C12, args),
         "C16" => drive_main(&c16::C16, args),
         "C21" => drive_main(&c21::C21, args),
         "C27" => drive_main(&c27::C27, args),
